@@ -101,8 +101,9 @@ class CountingFile:
             off = self._pos
             self._f.seek(off)
             data = self._f.read(length)
-            self._pos = off + len(data)
             kind = _planned(self.plan, k, off, length)
+            # the file position moves by what the read delivered, as with a real descriptor: not at all
+            # for a failed or empty read, by the prefix length for a short one
             if kind == "exception":
                 self.log.append((off, length, -1))
                 raise IOFault(f"injected read failure at read #{k} (offset {off}, length {length})")
@@ -110,6 +111,7 @@ class CountingFile:
                 data = b""
             elif isinstance(kind, (list, tuple)) and kind[0] == "short":
                 data = data[:max(0, min(len(data) - 1, int(kind[1] * len(data))))]
+            self._pos = off + len(data)
             self.log.append((off, length, len(data)))
             return data
 
